@@ -9,6 +9,7 @@ THEOREMS = ["H5V.Props.C11." + t for t in [
     "C11_step_refines", "C11_run_refines", "C11_reachable_wf", "C11_independent",
     "C11_checked_pop_front", "C11_checked_pop_back", "C11_checked_subtendril", "C11_push_checked",
     "C11_format_valid", "C11_no_ub", "C11_no_spurious_panic",
+    "C11_witness_oflow_2gib", "C11_witness_wtf8_validate",
     "laws_bytes", "laws_ascii", "laws_latin1",
 ]] + ["H5V.Lemmas.Tendril.Utf8." + t for t in [
     "laws_utf8", "C11_utf8_valid", "utf8_valid_append", "utf8_suffix_exact", "utf8_prefix_exact",
@@ -26,10 +27,13 @@ TRUSTED = [
     "Buf32::grow after make_owned (> 2 GiB, not exercised)",
 ]
 ASSUMPTIONS = [
-    "lengths are natural numbers with the crate's checked u32 arithmetic as explicit panic branches; tendrils "
-    "≥ 2 GiB (where push panics with OFLOW although the sum is < 4 GiB) are outside the tested range",
-    "WTF-8: the format laws (validity preserved by push with surrogate fix-up, prefix/suffix checks exact) are "
-    "hypotheses of the refinement theorems for that format (not proved); checked by the correspondence and the "
+    "lengths are natural numbers with the crate's checked u32 arithmetic as explicit panic branches; below 2^30 bytes "
+    "the model panics only where the owned-string specification does (C11_no_spurious_panic); at 2^31 a push that "
+    "needs growth panics with OFLOW although the documented limit is 4 GB (C11_witness_oflow_2gib, confirmed on the "
+    "real code outside the protocol) — outside the tested range",
+    "the refinement theorems are proved for Bytes, ASCII, Latin1 and UTF8 (Laws instances). WTF-8 is excluded: "
+    "WTF8::validate accepts ill-formed input (C11_witness_wtf8_validate; reported by the oracle as a defect), and its "
+    "surrogate fix-up has no proved laws; WTF-8 is covered by C12's safety theorems, the correspondence and the "
     "Python reference only",
     "refcount overflow (2^64 clones; Atomic::increment does not check) is out of scope",
 ]
@@ -39,7 +43,9 @@ RULE = ("op histories over a pool of 4 tendrils, 5 formats × {NonAtomic, Atomic
         "representation (inline, owned, owned with small length, shared refcount 2, shared sole owner, shared with "
         "offset, shared-adjacent / non-adjacent / other-buffer / clone operands for push_tendril) at lengths "
         "0,1,7,8,9,15,16,17,31,32,33 with boundary arguments, followed by a mutation of every slot; UTF-8 / WTF-8 "
-        "contents put every cut position in every phase of 1–4-byte characters; then seeded random histories. "
+        "contents put every cut position in every phase of 1–4-byte characters; validation at every edge of the "
+        "well-formed UTF-8 byte ranges, stray continuation bytes, all lead × trail surrogate joins in every "
+        "representation (thorough: every pair of leading bytes × 6 tails); then seeded random histories. "
         "non-trivial = some op changed a tendril or returned a character / error; distinct = distinct (case, output)")
 EXPLANATION = ("theorems: every op of the model refines the byte-list spec on its own slot and leaves abs of every "
                "other slot unchanged, for all heaps/pools satisfying WF, WF is preserved, lifted to all histories")
